@@ -736,6 +736,10 @@ def oracle_c04(r):
     rl = reply_lines(r)
     served = served_requests(r)
     closes = [l for l in delivered(r) if l.kind == 'close']
+    io_fault = any(e[0] in ('recv-eof', 'recv-error', 'send-error', 'send-closed', 'recv-closed') for e in r.events)
+    if r.exits and not io_fault and not sc.app_close:
+        out.append(('the process exit primitive was called although no I/O failure occurred (a wrong-typed return / protocol error must leave '
+                    'later requests unaffected)', {'kind': 'exit_on_protocol_error'}))
     for l in served:
         lines = rl.get(l.rid, [])
         if len(lines) > 1:
